@@ -164,7 +164,7 @@ func (n *Net) ByzStep() {
 	case x < 92:
 		// forged material that must be rejected: bad signature, wrong index, non-validator
 		v := n.SignVote(vals, g, tmproto.PrecommitType, h, round, types.BlockID{}, now)
-		switch r.Intn(3) {
+		switch r.Intn(4) {
 		case 0:
 			v.Signature = randBytes(r, 64)
 		case 1:
@@ -177,6 +177,24 @@ func (n *Net) ByzStep() {
 			}
 		case 2:
 			v.Height = h + 1
+		case 3:
+			// one genuine signature (own key, own address) presented under every other validator's index:
+			// index and address are not part of the sign bytes, the vote set has to tie them together
+			typ := tmproto.PrevoteType
+			if r.Intn(2) == 0 {
+				typ = tmproto.PrecommitType
+			}
+			var bid types.BlockID
+			if len(n.KnownAt[h]) > 0 {
+				bid = n.KnownAt[h][r.Intn(len(n.KnownAt[h]))].BlockID
+			}
+			v = n.SignVote(vals, g, typ, h, round, bid, now)
+			for _, victim := range n.Order {
+				w := *v
+				w.ValidatorIndex = n.ValIndex(vals, victim)
+				n.Send(g, to, &cs.VoteMessage{Vote: &w})
+			}
+			n.Stats["byz_votes_own_signature_other_index"]++
 		}
 		n.Send(g, to, &cs.VoteMessage{Vote: v})
 		n.Stats["byz_forged_votes"]++
